@@ -596,21 +596,24 @@ func c12Run(c batchCase) (out Outcome) {
 			return viol("region-refusal-lost", "call %s (index %d) travelled in a multi-request whose region action was refused with %s (not retryable); its result is (%v, %v); server log: %q",
 				op.Marker, i, c.FatalClass, r.Msg != nil, r.Error, execHistory(obs.execs))
 		}
-		if executions[op.Marker] > 1 {
+		// (a region reporting its server as stopping makes the client give the connection up: the responses of
+		// other multi-requests of the batch already executed on it are lost and those calls are sent again)
+		lossy := len(c.RegionStop) > 0
+		if executions[op.Marker] > 1 && !lossy {
 			return viol("executed-twice", "call %s (index %d) was executed %d times; server log: %q", op.Marker, i, executions[op.Marker], execHistory(obs.execs))
 		}
 		if len(c.OwnCtx) > 0 {
 			// (a call whose own context ended may be reported failed although it was executed)
 			continue
 		}
-		if r.Error == nil && executions[op.Marker] != 1 {
+		if r.Error == nil && (executions[op.Marker] == 0 || executions[op.Marker] != 1 && !lossy) {
 			return viol("success-without-execution", "call %s succeeded but was executed %d times", op.Marker, executions[op.Marker])
 		}
 		if final == "fatal" && r.Error != nil && len(errMarkers(r.Error)) == 1 && executions[op.Marker] != 0 {
 			return viol("fatal-but-executed", "call %s ended with its application exception but was also executed", op.Marker)
 		}
 		// nothing is sent again after the terminal outcome was delivered
-		if at, ok := executedAt[op.Marker]; ok {
+		if at, ok := executedAt[op.Marker]; ok && !lossy {
 			for _, e := range obs.execs[at+1:] {
 				if e.Marker == op.Marker {
 					return viol("resent-after-success", "call %s was sent again (attempt %d) after its successful execution had been answered", op.Marker, e.Attempt)
@@ -791,7 +794,8 @@ func TestC12_BatchExecution(t *testing.T) {
 			"Oracle on the servers' log: invalid => every result has an error, ok=false and no marker of the batch "+
 			"reached a server; valid => actions in each multi-request/region in batch order, fault-free per-region "+
 			"execution order = batch order, executed at most once, success => executed exactly once, never sent again "+
-			"after its success, sends = 1 + scripted retryable outcomes (exception-only scripts). Non-trivial = >= 2 calls "+
+			"after its success, sends = 1 + scripted retryable outcomes (exception-only scripts); where a region reports its server as stopping the client gives the "+
+			"connection up, so other requests already executed on it may be sent again (at least once; the order and success => executed oracles remain). Non-trivial = >= 2 calls "+
 			"on one region, a retryable outcome, or an invalid entry not in first position; distinct by case hash")
 	Drive(t, rec, true, c12Gen, c12Run)
 }
